@@ -2,32 +2,24 @@
 ENGINE = ("its only unit is a whole solver run / the recursive fixed-point engine: under CBMC one solve of one concrete "
           "two-impl program and five variants of the engine harness did not finish (DESIGN.md §3 P7-P14, P20, P24, P32, P33)")
 REASONS = {
-    "C01": "PENDING: answer-combination units planned (DESIGN.md §4.5)",
+    "C01": 'Not applicable: needs solves of arbitrary programs against a reference semantics; whole solver runs and the recursive fixed-point engine do not finish under CBMC (DESIGN.md §4.1). Its guidance clause rests on may_invalidate, which is checked under C17 (known finding F1).',
     "C02": "Not applicable: " + ENGINE,
-    "C03": "PENDING: Table::push_answer kernel planned (DESIGN.md §4.7)",
+    "C03": 'Not applicable: enumeration soundness/completeness and the look-ahead flag need SLG solver runs (DESIGN.md §4.1); the one kernel, Table::push_answer, hashes Canonical<AnswerSubst> into hashbrown (SIMD group probes, P8) and reads terms CBMC cannot constant-propagate (§2.2a)',
     "C04": "Not applicable: needs two complete Solver::solve runs on arbitrary programs; " + ENGINE,
     "C05": "Not applicable: coinductive semantics live in the engines and in clause generation; " + ENGINE,
     "C06": "Not applicable: clause generation (ClauseBuilder, Arc'ed datums, Vec<ProgramClause>) does not finish under CBMC (P31: 8 min / 10.7 GB)",
     "C07": "Not applicable: clause generation plus solver runs (P31, P7)",
     "C08": "Not applicable: built-in trait clause generation goes through ClauseBuilder and the RustIrDatabase (P31)",
-    "C09": "PENDING: size measure / overflow guard units planned (DESIGN.md §4.1a)",
+    "C09": 'Not applicable: termination of solve calls has no unit smaller than a solve; the size measure and the overflow guard do not compose into termination, and solves do not finish under CBMC (DESIGN.md §4.1)',
     "C10": "Not applicable: " + ENGINE,
     "C11": "Not applicable: " + ENGINE,
     "C12": "Not applicable: the property is about state after a panic unwinds; Kani/CBMC model panic as termination (no unwinding, no catch_unwind, drop guards do not run)",
-    "C13": "PENDING: Solution::combine commutativity planned (DESIGN.md §4.5)",
     "C14": "Not applicable: the smallest unit is InferenceTable::relate, which does not finish under CBMC even on a fully concrete pair (P18, 25 min)",
     "C15": "Not applicable: same unit as C14 (relate + ena snapshot/rollback), same measurements",
-    "C16": "PENDING: UniverseMap / placeholder-leaf units planned (DESIGN.md §4.7)",
-    "C17": "PENDING: MayInvalidate / AntiUnifier step harnesses planned (DESIGN.md §4.5)",
-    "C19": "PENDING: priority assignment with stubbed verdicts planned (DESIGN.md §4.8)",
+    "C19": 'Not applicable: SpecializationPriorities is an IndexMap with std RandomState (thread-local keys: the Kani ICE class of P3), the specialization forest is a petgraph Graph on the untyped heap, impl datums are Arcs behind dyn RustIrDatabase (DESIGN.md §5); F2 is documented from its native reproduction only',
     "C20": "Not applicable: orphan-check clauses come from clause generation (P31) and are judged by a solver run",
     "C21": "Not applicable: a meta-property whose truth is an entailment evaluated by solver runs over a universe of types",
     "C22": "Not applicable: fmt-driven printer and LALRPOP parser/lexer with string_cache atoms are beyond bit-level symbolic execution (and hit the Kani ICE of P3)",
     "C23": "Not applicable: C22's pipeline plus two whole-solver runs per goal",
     "C24": "Not applicable: the subject is the generated parser, its lexer and the string-keyed lowering environment (C22's reason); fuzzing territory, and the brief excludes switching technique",
-    "C25": "PENDING: class-partitioned binder-law harnesses planned (DESIGN.md §4.6)",
-    "C26": "PENDING: compute_flags step harnesses planned (DESIGN.md §4.2)",
-    "C27": "PENDING: in-place fold harnesses planned (DESIGN.md §4.3)",
-    "C28": "PENDING: structural units planned (DESIGN.md §4.7)",
-    "C29": "PENDING: variance algebra units planned (DESIGN.md §4.7)",
 }
